@@ -29,11 +29,14 @@
      - eucl_decide (Fourier-Motzkin reference) under relabelling as a boolean identity; the specification-level
        statements Euclidean_relabel_iff / Euclidean_perm and eucl_decide_correct (C19) give it for well-formed
        profiles, not restated here.
+     - the mirror of k_alternative_deletion (Model/ELPDP.v) has only soundness / bound theorems (elp_sound, elp_bound), no
+       exact-optimum theorem, so no invariance of its optimum is derivable yet; the reference optimum min_alt_del is invariant.
      - tree checker: only the direction "accepted => accepted after renaming" (what witness transport needs). *)
 From Coq Require Import List Arith NArith ZArith QArith Bool Permutation Lia.
 From PrefVerif Require Import Lib.Val Model.Relabel.
 From PrefVerif Require Model.SP Model.SC Model.Tree Model.Deletion Model.Partition Model.Euclid Model.C1P Model.Approval
   Model.Scoring Model.Bucklin Model.Pairwise Model.SCAlgo Model.TreeAlgo.
+From PrefVerif Require Model.ELO Proofs.ELO.
 From PrefVerif Require Proofs.SP Proofs.SC Proofs.Tree Proofs.Deletion Proofs.Partition Proofs.Euclid Proofs.Approval
   Proofs.Scoring Proofs.ScoringCopeland Proofs.ScoringSAV Proofs.Bucklin Proofs.Pairwise Proofs.TreeAlgo Proofs.Relabel.
 Import ListNotations.
@@ -99,6 +102,21 @@ Theorem axis_test_relabel : forall f, injective f -> forall d p axis,
   SP.is_single_peaked_axis_model d (map_profile f p) (map_alts f axis) = SP.is_single_peaked_axis_model d p axis.
 Proof. exact Proofs.Relabel.axis_test_relabel. Qed.
 Print Assumptions axis_test_relabel.
+
+(* the MIRROR of is_single_peaked (Escoffier-Lang-Ozturk elimination, Model/ELO.v): which orders are stored first,
+   the order of alternatives_name and the labels do not show in the verdict *)
+Theorem elo_verdict_perm : forall alts alts' prefs prefs' b ax b' ax',
+  Proofs.ELO.wf_strict_profile alts prefs -> Proofs.ELO.wf_strict_profile alts' prefs' ->
+  Permutation alts alts' -> Permutation prefs prefs' ->
+  ELO.elo alts prefs = Ok (b, ax) -> ELO.elo alts' prefs' = Ok (b', ax') -> b = b'.
+Proof. exact Proofs.Relabel.elo_verdict_perm. Qed.
+Print Assumptions elo_verdict_perm.
+
+Theorem elo_verdict_relabel : forall f alts prefs b ax b' ax', injective f ->
+  Proofs.ELO.wf_strict_profile alts prefs -> Proofs.ELO.wf_strict_profile (map_alts f alts) (map_rankings f prefs) ->
+  ELO.elo alts prefs = Ok (b, ax) -> ELO.elo (map_alts f alts) (map_rankings f prefs) = Ok (b', ax') -> b = b'.
+Proof. exact Proofs.Relabel.elo_verdict_relabel. Qed.
+Print Assumptions elo_verdict_relabel.
 
 (* witnesses *)
 Theorem sp_check_axis_relabel : forall f, injective f -> forall alts rs axis,
